@@ -304,8 +304,10 @@ class StringMonitor:
         got = F(body)
         if prec is None:
             if abs(got - v) > F(1, 10 ** 16):
+                # mechanism feature: the complement step `frac += 1` for fractions below zero rounds by up to 2^-54 and the shortest
+                # repr by up to 2^-54 more, so the worst case of the documented "within 1e-16" is 2^-53 = 1.11e-16
                 ctx.violation(o, f"to_string() = {t!r} differs from the exact value {float(v)!r} by {float(abs(got - v)):.3e} > 1e-16", None,
-                              dict(feats, what="value"))
+                              dict(feats, what="value", within_two_roundings=bool(abs(got - v) <= F(1, 2 ** 53) + F(1, 10 ** 18))))
         else:
             dec = body.partition(".")[2]
             if len(dec) != prec:
